@@ -395,21 +395,27 @@ def normal_text(src):
 # ------------------------------------------------------------------------------------------------ N10 copy propagation
 PURE_CALLS = ('len', 'max', 'min', 'abs', 'isinstance', 'issubclass', 'bool', 'int', 'sum', 'any', 'all', 'type', 'getattr',
               'hasattr', 'tuple', 'frozenset', 'str', 'repr', 'divmod', 'range', 'xrange', 'enumerate', 'zip', 'reversed')
-PURE_METHODS = ('get', 'format', 'join', 'split', 'ljust', 'rjust', 'strip', 'lstrip', 'rstrip', 'startswith', 'endswith', 'lower',
+PURE_METHODS = ('_types', 'get', 'format', 'join', 'split', 'ljust', 'rjust', 'strip', 'lstrip', 'rstrip', 'startswith', 'endswith', 'lower',
                 'upper', 'keys', 'values', 'items', 'index', 'count', 'rfind', 'find', 'replace', 'splitlines', 'isdigit')
 MUTATORS = ('append', 'extend', 'insert', 'pop', 'remove', 'clear', 'update', 'add', 'discard', 'sort', 'reverse', 'setdefault',
             'popitem', '__setitem__', '__delitem__')
 SCOPES = (ast.FunctionDef, ast.AsyncFunctionDef, ast.Lambda, ast.ClassDef)
 
 
-def is_pure(e):
-    """Evaluating the expression has no effect and yields a value (not a fresh mutable object that the name would stand for)."""
-    if isinstance(e, (ast.List, ast.Dict, ast.Set, ast.ListComp, ast.SetComp, ast.DictComp, ast.GeneratorExp)):
+CONTAINER_CALLS = ('list', 'sorted', 'set', 'dict')
+
+
+def is_pure(e, containers=False):
+    """Evaluating the expression has no effect and yields a value (not a fresh mutable object that the name would stand for,
+    unless `containers`: the caller has checked that the name is only read)."""
+    if isinstance(e, ast.GeneratorExp):
+        return False
+    if not containers and isinstance(e, (ast.List, ast.Dict, ast.Set, ast.ListComp, ast.SetComp, ast.DictComp)):
         return False
     for n in ast.walk(e):
         if isinstance(n, ast.Call):
             if isinstance(n.func, ast.Name):
-                if n.func.id not in PURE_CALLS:
+                if n.func.id not in PURE_CALLS and not (containers and n.func.id in CONTAINER_CALLS):
                     return False
             elif isinstance(n.func, ast.Attribute):
                 fn = ast.unparse(n.func)
@@ -505,7 +511,9 @@ def propagate_copies(fn):
                     continue
                 e = st.value
                 if not is_pure(e):
-                    continue
+                    # a fresh container that is only ever read (never mutated, never aliased into a store) is a value too
+                    if not (is_pure(e, containers=True) and _only_read(fn, x)):
+                        continue
                 in_loop = _enclosing_loop_targets(fn, blk)
                 ok = True
                 for n in ast.walk(e):
@@ -537,6 +545,33 @@ def propagate_copies(fn):
                 break
         if not done:
             break
+
+
+def _only_read(fn, name):
+    """Every occurrence of the name is a plain read that cannot mutate or leak the object: iterated, indexed, sliced, passed to a
+    pure consumer, tested for membership / length."""
+    parents = {}
+    for p in ast.walk(fn):
+        for c in ast.iter_child_nodes(p):
+            parents[id(c)] = p
+    for n in ast.walk(fn):
+        if not (isinstance(n, ast.Name) and n.id == name and isinstance(n.ctx, ast.Load)):
+            continue
+        p = parents.get(id(n))
+        if isinstance(p, (ast.For, ast.comprehension)) and p.iter is n:
+            continue
+        if isinstance(p, ast.Subscript) and p.value is n and isinstance(p.ctx, ast.Load):
+            continue
+        if isinstance(p, ast.Compare):
+            continue
+        if isinstance(p, ast.Call) and n in p.args and isinstance(p.func, ast.Name) and p.func.id in PURE_CALLS + ('sorted', 'list', 'set', 'reversed'):
+            continue
+        if isinstance(p, ast.Call) and n in p.args and isinstance(p.func, ast.Attribute) and p.func.attr == 'join':
+            continue
+        if isinstance(p, (ast.If, ast.While, ast.IfExp, ast.BoolOp, ast.UnaryOp)):
+            continue
+        return False
+    return True
 
 
 class _Subst(ast.NodeTransformer):
@@ -634,6 +669,7 @@ def _reads_written_state(e, later, uses, owner):
 def propagate_all(tree):
     fns = [n for n in ast.walk(tree) if isinstance(n, (ast.FunctionDef, ast.AsyncFunctionDef))]
     for fn in fns:
+        string_accumulators(fn)
         split_versions(fn)
         propagate_copies(fn)
         forward_substitute(fn)
@@ -827,3 +863,63 @@ def _eval_order(node):
         for x in _eval_order(c):
             yield x
     yield node
+
+
+# ------------------------------------------------------------------------------------------------ N20 string accumulation
+def string_accumulators(fn):
+    """N20: collecting pieces in a list that is only appended to and finally joined with '' is accumulating the string itself:
+    `acc = []; acc.append(e); ...; ''.join(acc)`  ==  `acc = ''; acc += e; ...; acc`."""
+    own = _own_nodes(fn)
+    parents = {}
+    for p in [fn] + own:
+        for c in ast.iter_child_nodes(p):
+            parents[id(c)] = p
+    inits = {}
+    for n in own:
+        if isinstance(n, ast.Assign) and len(n.targets) == 1 and isinstance(n.targets[0], ast.Name) and isinstance(n.value, ast.List) and not n.value.elts:
+            inits.setdefault(n.targets[0].id, []).append(n)
+    for name, defs in inits.items():
+        if len(defs) != 1:
+            continue
+        appends, joins, other = [], [], 0
+        for n in own:
+            if isinstance(n, ast.Name) and n.id == name:
+                p = parents.get(id(n))
+                if isinstance(n.ctx, ast.Store):
+                    if p is not defs[0]:
+                        other += 1
+                    continue
+                pp = parents.get(id(p))
+                ppp = parents.get(id(pp))
+                if isinstance(p, ast.Attribute) and p.attr == 'append' and isinstance(pp, ast.Call) and pp.func is p and len(pp.args) == 1 \
+                        and isinstance(ppp, ast.Expr):
+                    appends.append(ppp)
+                elif isinstance(p, ast.Call) and isinstance(p.func, ast.Attribute) and p.func.attr == 'join' and isinstance(p.func.value, ast.Constant) \
+                        and p.func.value.value == '' and p.args == [n]:
+                    joins.append(p)
+                else:
+                    other += 1
+        if other or not appends or not joins:
+            continue
+        defs[0].value = ast.copy_location(ast.Constant(value=''), defs[0].value)
+        for ex in appends:
+            call = ex.value
+            new = ast.copy_location(ast.AugAssign(target=ast.Name(id=name, ctx=ast.Store()), op=ast.Add(), value=call.args[0]), ex)
+            par = parents.get(id(ex))
+            for field in ('body', 'orelse', 'finalbody'):
+                blk = getattr(par, field, None)
+                if isinstance(blk, list):
+                    for i, s_ in enumerate(blk):
+                        if s_ is ex:
+                            blk[i] = new
+        for j in joins:
+            par = parents.get(id(j))
+            repl = ast.copy_location(ast.Name(id=name, ctx=ast.Load()), j)
+            for field, val in ast.iter_fields(par):
+                if val is j:
+                    setattr(par, field, repl)
+                elif isinstance(val, list):
+                    for i, v in enumerate(val):
+                        if v is j:
+                            val[i] = repl
+    ast.fix_missing_locations(fn)
